@@ -77,18 +77,18 @@ P("C06", "other",
   "Bounded: affine/log conversion maps exact in a Fraction registry, inverse pairs, delta units by scale only, the documented "
   "offset calculus table in both registry modes with both operand orders and in-place forms, default_as_delta parsing.",
   "Converters and the offset calculus branches are not yet under contract.",
-  "bounded stand-in only for now.", standins=["standins.c06_offset"])
+  "bounded stand-in only for now.", standins=["standins.c06_offset", "standins.c06_logcompound"])
 P("C07", "other",
   "Bounded: every token sequence up to length 5 (plus all well-formed ones up to 7) over 14 tokens is evaluated by the real "
   "tree builder and compared with an independent recursive-descent reference and Python's ast; literal typing; word forms; "
   "audit-hook run over hostile strings.",
   "The parser (_build_eval_tree) is not yet under contract.",
-  "bounded stand-in only for now.", standins=["standins.c07_eval"])
+  "bounded stand-in only for now.", standins=["standins.c07_eval", "standins.c07_literals"])
 P("C08", "other",
   "Bounded: the full cross product prefix x unit spelling x plural of the default registry against an independent decomposition, "
   "history independence, case-insensitive lookup, delta reading, membership.",
   "Name resolution functions are not yet under contract.",
-  "bounded stand-in only for now.", standins=["standins.c08_names"])
+  "bounded stand-in only for now.", standins=["standins.c08_names", "standins.c08_alias"])
 P("C09", "other",
   "Bounded: every canonical unit x 13 specs x 3 numeric registries, compound units up to 3 factors with exponents -3..3, "
   "round trips of plain formats, structural check of LaTeX/HTML/siunitx, magnitude specs, objects unchanged.",
@@ -98,7 +98,7 @@ P("C10", "other",
   "Bounded: an independent reader of the definition-file grammar is compared with the registry built from the bundled files "
   "(exhaustive); generated definition sets under all line permutations and six loading paths; a catalogue of ill-formed inputs.",
   "Definition adders / solve_dependencies are not yet under contract.",
-  "bounded stand-in only for now.", standins=["standins.c10_defs"])
+  "bounded stand-in only for now.", standins=["standins.c10_defs", "standins.c10_order"])
 P("C11", "other",
   "Deductive: ContextChain.insert_contexts / remove_contexts (most recently enabled context first, in both the context list and "
   "the rule maps). Bounded: shortest-path minimality on all digraphs of <= 4 (quick) / 5 (thorough) nodes, bundled context rules "
